@@ -588,13 +588,15 @@ class ChemicalIndexer(Indexer):
     
     def to_material_indexer(self, phases):
         material_array = self._MaterialIndexer.blank(phases, self._chemicals)
-        phase = self.phase
-        if phase not in phases: 
-            if phase.isupper():
-                phase = phase.lower()
-            else:
-                phase = phase.upper()
-        material_array[phase].copy_like(self.data)
+        data = self.data
+        if data.any():
+            phase = self.phase
+            if phase not in phases: 
+                if phase.isupper():
+                    phase = phase.lower()
+                else:
+                    phase = phase.upper()
+            material_array[phase].copy_like(data)
         return material_array
     
     def copy_like(self, other):
